@@ -572,7 +572,7 @@ func (fx *loopFx) callEffects(call *ssa.CallCommon, subst map[ssa.Value]ssa.Valu
 		if len(coarse) == 0 {
 			return
 		}
-		c.havocModCoarse(st, callee, fc, coarse)
+		c.havocModCoarseCall(st, callee, call, fc, coarse)
 		return
 	}
 	if callee != nil && callee.Blocks != nil && depth < 3 && (c.canInline(callee) || (fc != nil && fc.Inline)) {
@@ -594,6 +594,38 @@ func (c *FnCtx) heapHavocRowAware(st *State, name string) { c.heapHavoc(st, name
 
 // havocModCoarse havocs whole arrays for every modifies item, by type.
 func (c *FnCtx) havocModCoarse(st *State, callee *ssa.Function, fc *FuncContract, items []ModItem) {
+	c.havocModCoarseCall(st, callee, nil, fc, items)
+}
+
+func (c *FnCtx) havocModCoarseCall(st *State, callee *ssa.Function, call *ssa.CallCommon, fc *FuncContract, items []ModItem) {
+	if callee == nil && call != nil && call.IsInvoke() {
+		// interface method: bind the declared names to dummies of the receiver / parameter types
+		dst := st.clone()
+		env := &SpecEnv{c: c, st: dst, heap: dst.heap, vars: map[string]Val{}, pkg: c.eng.pkgOf(fc.PkgPath)}
+		ptypes := []types.Type{call.Value.Type()}
+		sig := call.Signature()
+		for i := 0; i < sig.Params().Len(); i++ {
+			ptypes = append(ptypes, sig.Params().At(i).Type())
+		}
+		names := fc.Names
+		if len(names) == 0 {
+			names = append(names, "")
+			for i := 0; i < sig.Params().Len(); i++ {
+				names = append(names, sig.Params().At(i).Name())
+			}
+		}
+		for i, pt := range ptypes {
+			if i < len(names) && names[i] != "" {
+				env.vars[names[i]] = c.freshVal(dst, pt, "dummy")
+			}
+		}
+		c.havocModCoarseEnv(st, env, items)
+		return
+	}
+	c.havocModCoarseFn(st, callee, fc, items)
+}
+
+func (c *FnCtx) havocModCoarseFn(st *State, callee *ssa.Function, fc *FuncContract, items []ModItem) {
 	// Resolve the static types of the modifies expressions through a typed dummy environment.
 	dst := st.clone()
 	env := &SpecEnv{c: c, st: dst, heap: dst.heap, vars: map[string]Val{}, pkg: c.eng.pkgOf(fc.PkgPath)}
@@ -614,6 +646,10 @@ func (c *FnCtx) havocModCoarse(st *State, callee *ssa.Function, fc *FuncContract
 			}
 		}
 	}
+	c.havocModCoarseEnv(st, env, items)
+}
+
+func (c *FnCtx) havocModCoarseEnv(st *State, env *SpecEnv, items []ModItem) {
 	for _, m := range items {
 		switch m.Kind {
 		case "every":
